@@ -143,17 +143,17 @@ theorem stockholm_patched_witnesses :
 
 /-- `#NEXUS\n[` — unterminated comment: `consumeComment` spins at EOF -/
 theorem nexus_counterexample_hang :
-    Nexus.parse ⟨false, false, false, false⟩ {} [35, 78, 69, 88, 85, 83, 10, 91] = .hang := by decide
+    Nexus.parse ⟨false, false, false, false, false⟩ {} [35, 78, 69, 88, 85, 83, 10, 91] = .hang := by decide
 /-- a matrix row without residues: success with zero columns -/
 theorem nexus_counterexample_zero_columns :
-    Nexus.parse ⟨false, false, false, false⟩ {} [35, 78, 69, 88, 85, 83, 10, 98, 101, 103, 105, 110, 32, 100, 97, 116, 97, 59, 10, 109, 97, 116, 114, 105, 120, 10, 97, 32, 10, 59, 10, 101, 110, 100, 59, 10] = .ok ⟨1, 0, [([97], [])]⟩ := by decide
+    Nexus.parse ⟨false, false, false, false, false⟩ {} [35, 78, 69, 88, 85, 83, 10, 98, 101, 103, 105, 110, 32, 100, 97, 116, 97, 59, 10, 109, 97, 116, 114, 105, 120, 10, 97, 32, 10, 59, 10, 101, 110, 100, 59, 10] = .ok ⟨1, 0, [([97], [])]⟩ := by decide
 /-- `ntax=-1 nchar=-1` is accepted with one row of one column -/
 theorem nexus_counterexample_minus_one :
-    Nexus.parse ⟨false, false, false, false⟩ {} [35, 78, 69, 88, 85, 83, 10, 98, 101, 103, 105, 110, 32, 100, 97, 116, 97, 59, 10, 100, 105, 109, 101, 110, 115, 105, 111, 110, 115, 32, 110, 116, 97, 120, 61, 45, 49, 32, 110, 99, 104, 97, 114, 61, 45, 49, 59, 10, 109, 97, 116, 114, 105, 120, 10, 97, 32, 65, 10, 59, 10, 101, 110, 100, 59, 10] = .ok ⟨1, 1, [([97], [65])]⟩ := by decide
+    Nexus.parse ⟨false, false, false, false, false⟩ {} [35, 78, 69, 88, 85, 83, 10, 98, 101, 103, 105, 110, 32, 100, 97, 116, 97, 59, 10, 100, 105, 109, 101, 110, 115, 105, 111, 110, 115, 32, 110, 116, 97, 120, 61, 45, 49, 32, 110, 99, 104, 97, 114, 61, 45, 49, 59, 10, 109, 97, 116, 114, 105, 120, 10, 97, 32, 65, 10, 59, 10, 101, 110, 100, 59, 10] = .ok ⟨1, 1, [([97], [65])]⟩ := by decide
 theorem nexus_patched_witnesses :
-    Nexus.parse ⟨true, true, true, false⟩ {} [35, 78, 69, 88, 85, 83, 10, 91] = .error ∧
-    Nexus.parse ⟨true, true, true, false⟩ {} [35, 78, 69, 88, 85, 83, 10, 98, 101, 103, 105, 110, 32, 100, 97, 116, 97, 59, 10, 109, 97, 116, 114, 105, 120, 10, 97, 32, 10, 59, 10, 101, 110, 100, 59, 10] = .error ∧
-    Nexus.parse ⟨true, true, true, false⟩ {} [35, 78, 69, 88, 85, 83, 10, 98, 101, 103, 105, 110, 32, 100, 97, 116, 97, 59, 10, 100, 105, 109, 101, 110, 115, 105, 111, 110, 115, 32, 110, 116, 97, 120, 61, 45, 49, 32, 110, 99, 104, 97, 114, 61, 45, 49, 59, 10, 109, 97, 116, 114, 105, 120, 10, 97, 32, 65, 10, 59, 10, 101, 110, 100, 59, 10] = .error := by decide
+    Nexus.parse ⟨true, true, true, false, false⟩ {} [35, 78, 69, 88, 85, 83, 10, 91] = .error ∧
+    Nexus.parse ⟨true, true, true, false, false⟩ {} [35, 78, 69, 88, 85, 83, 10, 98, 101, 103, 105, 110, 32, 100, 97, 116, 97, 59, 10, 109, 97, 116, 114, 105, 120, 10, 97, 32, 10, 59, 10, 101, 110, 100, 59, 10] = .error ∧
+    Nexus.parse ⟨true, true, true, false, false⟩ {} [35, 78, 69, 88, 85, 83, 10, 98, 101, 103, 105, 110, 32, 100, 97, 116, 97, 59, 10, 100, 105, 109, 101, 110, 115, 105, 111, 110, 115, 32, 110, 116, 97, 120, 61, 45, 49, 32, 110, 99, 104, 97, 114, 61, 45, 49, 59, 10, 109, 97, 116, 114, 105, 120, 10, 97, 32, 65, 10, 59, 10, 101, 110, 100, 59, 10] = .error := by decide
 
 /-- a second block with more rows than the first: `names[currentnbseqs]` out of range -/
 theorem clustal_counterexample_panic :
@@ -816,7 +816,8 @@ readings of the header, i.e. that the `ntax` / `nchar` the parser's DIMENSIONS l
 independent scanner `Spec.Fmt.declaredNexus` (comments stripped, commands split at `;`, `key = value` inside the
 DATA / CHARACTERS block) reads off the raw bytes, and are not the "undeclared" value −1 (hypothesis `hread`; it is
 checked on the implementation's results by the oracle predicate on every run, not proved: the parser tokenises, the
-scanner works on text).  Given it, the oracle's `contradicts-header-ntax` / `-nchar` clauses hold for every success. -/
+scanner works on text; the two known ways to break it — `ENDBLOCK` not ending a block, a `BEGIN` skipped inside an
+unterminated block — are repaired: `nexus_endblock_ends_block`, `nexus_counterexample_nested_begin`).  Given it, the oracle's `contradicts-header-ntax` / `-nchar` clauses hold for every success. -/
 theorem nexus_header_consistent_partial (f : Nexus.Facts) (o : POpts) (bs : List Byte) (a : Aln)
     (h : Nexus.parse f o bs = .ok a)
     (hread : ∀ top d, Nexus.topLoop f ((Nexus.sIW bs).2.length + 3) (Nexus.sIW bs).2 {} = .ok top → top.data = some d →
@@ -850,24 +851,42 @@ theorem nexus_header_consistent_partial (f : Nexus.Facts) (o : POpts) (bs : List
 def nexusEndblockSample : List Byte := [35, 78, 69, 88, 85, 83, 10, 98, 101, 103, 105, 110, 32, 100, 97, 116, 97, 59, 10, 100, 105, 109, 101, 110, 115, 105, 111, 110, 115, 32, 110, 116, 97, 120, 61, 57, 59, 10, 101, 110, 100, 98, 108, 111, 99, 107, 59, 10, 98, 101, 103, 105, 110, 32, 116, 114, 101, 101, 115, 59, 10, 100, 105, 109, 101, 110, 115, 105, 111, 110, 115, 32, 110, 116, 97, 120, 61, 49, 59, 10, 109, 97, 116, 114, 105, 120, 10, 97, 32, 65, 67, 10, 59, 10, 101, 110, 100, 59, 10]
 
 set_option maxRecDepth 100000 in
-/-- **the reading hypothesis of `nexus_header_consistent_partial` is not a theorem**: the parser does not know
-`ENDBLOCK` (the standard synonym of `END`): it skips it as an unsupported command, stays in the DATA block, skips
-`begin trees;` likewise and lets the second `dimensions` overwrite `ntax`.  The parse succeeds with ONE row although
-the DATA block — as the naive scanner, which closes the block at `endblock`, reads it — declares `ntax=9`.
-Reproduce: `goalign reformat fasta --nexus -i <file>` (two "unsupported command" warnings, then `>a / AC`). -/
-theorem nexus_header_counterexample_endblock :
-    Nexus.parse ⟨true, true, true, true⟩ {} nexusEndblockSample = .ok ⟨1, 2, [([97], [65, 67])]⟩ ∧
+/-- **`ENDBLOCK` ends a block like `END`** (the standard synonym; lexer repair `case "END", "ENDBLOCK"`): the word is the
+END token in either case, and the former witness — where the unrepaired parser skipped `endblock;` as an unsupported
+command, stayed in the DATA block, let the second `dimensions` overwrite `ntax` and succeeded with ONE row although the
+DATA block declares `ntax=9` — is now an explicit error (the DATA block, closed at `endblock;`, has no matrix; the
+TREES block is skipped up to its `end;`). -/
+theorem nexus_endblock_ends_block :
+    (Nexus.classify [69, 78, 68, 66, 76, 79, 67, 75]).kind = .end_ ∧
+    (Nexus.classify [101, 110, 100, 98, 108, 111, 99, 107]).kind = .end_ ∧
+    Nexus.parse ⟨true, true, true, true, true⟩ {} nexusEndblockSample = .error ∧
     Spec.Fmt.declaredNexus nexusEndblockSample = (some 9, none) := by decide
+
+/-- `#NEXUS begin data; dimensions ntax=9; begin trees; dimensions ntax=1; matrix a AC ; end;` (no END before the second BEGIN) -/
+def nexusNestedBeginSample : List Byte := [35, 78, 69, 88, 85, 83, 10, 98, 101, 103, 105, 110, 32, 100, 97, 116, 97, 59, 10, 100, 105, 109, 101, 110, 115, 105, 111, 110, 115, 32, 110, 116, 97, 120, 61, 57, 59, 10, 98, 101, 103, 105, 110, 32, 116, 114, 101, 101, 115, 59, 10, 100, 105, 109, 101, 110, 115, 105, 111, 110, 115, 32, 110, 116, 97, 120, 61, 49, 59, 10, 109, 97, 116, 114, 105, 120, 10, 97, 32, 65, 67, 10, 59, 10, 101, 110, 100, 59, 10]
+
+set_option maxRecDepth 100000 in
+/-- **a `BEGIN` inside an unterminated block** (blocks do not nest).  Without the repair (`rejectsNestedBegin = false`:
+the `BEGIN` is skipped as an unsupported command with a warning) the DATA block stays open and the second `dimensions`
+overwrites `ntax`: the parse succeeds with ONE row, while the naive scanner — which opens a new block at every
+`begin` — reads `ntax=9` for the DATA block: the reading hypothesis of `nexus_header_consistent_partial` fails.  With
+the repair (`case BEGIN:` of `parseData` / `parseTaxa` is an error, proposed_fixes/c03-nexus-begin-inside-block.diff)
+the file is an explicit error.  Reproduce on an unrepaired tree: `goalign reformat fasta --nexus -i <file>` (one
+"unsupported command \"begin\" in block DATA" warning, then `>a / AC`). -/
+theorem nexus_counterexample_nested_begin :
+    Nexus.parse ⟨true, true, true, true, false⟩ {} nexusNestedBeginSample = .ok ⟨1, 2, [([97], [65, 67])]⟩ ∧
+    Spec.Fmt.declaredNexus nexusNestedBeginSample = (some 9, none) ∧
+    Nexus.parse ⟨true, true, true, true, true⟩ {} nexusNestedBeginSample = .error := by decide
 
 /-- non-vacuity: `#NEXUS begin data; dimensions ntax=2 nchar=3; format datatype=dna; matrix a ACG / b A-T ; end;` -/
 def nexusSample : List Byte := [35, 78, 69, 88, 85, 83, 10, 98, 101, 103, 105, 110, 32, 100, 97, 116, 97, 59, 10, 100, 105, 109, 101, 110, 115, 105, 111, 110, 115, 32, 110, 116, 97, 120, 61, 50, 32, 110, 99, 104, 97, 114, 61, 51, 59, 10, 102, 111, 114, 109, 97, 116, 32, 100, 97, 116, 97, 116, 121, 112, 101, 61, 100, 110, 97, 59, 10, 109, 97, 116, 114, 105, 120, 10, 97, 32, 65, 67, 71, 10, 98, 32, 65, 45, 84, 10, 59, 10, 101, 110, 100, 59, 10]
 
 set_option maxRecDepth 100000 in
-example : Nexus.parse ⟨true, true, true, true⟩ {} nexusSample = .ok ⟨1, 3, [([97], [65, 67, 71]), ([98], [65, 45, 84])]⟩ ∧
+example : Nexus.parse ⟨true, true, true, true, true⟩ {} nexusSample = .ok ⟨1, 3, [([97], [65, 67, 71]), ([98], [65, 45, 84])]⟩ ∧
     Spec.Fmt.declaredNexus nexusSample = (some 2, some 3) := by decide
 -- the reading hypothesis of `nexus_header_consistent_partial` holds on it: the DIMENSIONS loop ends with (2, 3)
 set_option maxRecDepth 100000 in
-example : (match Nexus.topLoop ⟨true, true, true, true⟩ ((Nexus.sIW nexusSample).2.length + 3) (Nexus.sIW nexusSample).2 {} with
+example : (match Nexus.topLoop ⟨true, true, true, true, true⟩ ((Nexus.sIW nexusSample).2.length + 3) (Nexus.sIW nexusSample).2 {} with
     | .ok top => top.data.map fun d => (d.ntax, d.nchar)
     | _ => none) = some (2, 3) := by decide
 
